@@ -127,6 +127,60 @@ SCHEDULES = [
 SCHED_BY_NAME = {s.name: s for s in SCHEDULES}
 
 
+def private_names(world):
+    """Names of the private attributes the model has to touch, found by
+    looking at a constructed inspector instead of being assumed: the table
+    of capture regions (a dict whose values are CaptureRegion objects), the
+    table of safety checks (values are SafetyCheck objects) and the stream
+    position (the integer attribute eat_chunk advances by len(chunk))."""
+    cached = world.__dict__.get('_insp_private_names')
+    if cached is not None:
+        return cached
+    region_cls = world.cls(MOD, 'CaptureRegion')
+    check_cls = world.cls(MOD, 'SafetyCheck')
+    out = {}
+    probe = {}
+
+    def thunk(interp):
+        insp = interp.call(world.cls(MOD, 'QcowInspector'), [])
+        probe['before'] = dict(insp.fields)
+        chunk = T('sym', 'probe_chunk')
+        interp.types[chunk] = 'bytes'
+        interp.stubs['CaptureRegion.capture'] = lambda i, a, k: K(None)
+        interp.stubs['EndCaptureRegion.capture'] = lambda i, a, k: K(None)
+        try:
+            interp.call(interp.get_attr(insp, 'eat_chunk'), [chunk])
+        except AbsRaise:
+            pass
+        probe['after'] = dict(insp.fields)
+        return K(None)
+    interp = Interp(world, inline_depth=5)
+    try:
+        interp.explore(thunk, max_paths=64)
+    except AnalysisError:
+        pass
+    for name, v in probe.get('before', {}).items():
+        if isinstance(v, DictV) and v.vals and all(
+                isinstance(x, Obj) and x.cls is not None and
+                x.cls.is_subclass(region_cls) for x in v.vals):
+            out['regions'] = name
+        if isinstance(v, DictV) and v.vals and all(
+                isinstance(x, Obj) and x.cls is not None and
+                x.cls.is_subclass(check_cls) for x in v.vals):
+            out['checks'] = name
+    for name, v in probe.get('after', {}).items():
+        b = probe['before'].get(name)
+        if isinstance(b, K) and b.v == 0 and isinstance(v, T) and \
+                'probe_chunk' in show(v):
+            out['position'] = name
+    for role in ('regions', 'checks', 'position'):
+        if role not in out:
+            raise AnalysisError('anchor vanished: the attribute of '
+                                'FileInspector holding the %s' % role)
+    world.__dict__['_insp_private_names'] = out
+    return out
+
+
 class Snapshot:
     """Observations after a chunk / at the end of a path."""
 
@@ -155,7 +209,7 @@ class StreamModel:
 
     # -- capture model -------------------------------------------------------
     def _region_name(self, interp, insp, region):
-        regs = insp.fields.get('_capture_regions')
+        regs = insp.fields.get(private_names(self.world)['regions'])
         if isinstance(regs, DictV):
             for k, v in zip(regs.keys, regs.vals):
                 if v is region:
@@ -253,7 +307,7 @@ class StreamModel:
         """End of the data held by the (non-tail) regions: the stream has
         delivered at least that many bytes."""
         floor = 0
-        regs = insp.fields.get('_capture_regions')
+        regs = insp.fields.get(private_names(self.world)['regions'])
         if not isinstance(regs, DictV):
             return 0
         for k, r in zip(regs.keys, regs.vals):
@@ -414,7 +468,7 @@ class StreamModel:
                 'index': ['ValueError'], 'decode': ['UnicodeDecodeError']})
             insp = interp.call(cls, [])
             st['insp'] = insp
-            regs = insp.fields.get('_capture_regions')
+            regs = insp.fields.get(private_names(self.world)['regions'])
             if isinstance(regs, DictV):
                 for v in regs.vals:
                     st['static'].add(id(v))
@@ -469,7 +523,7 @@ class StreamModel:
                 st.update(insp=insp2, chunk=-1, born={}, visits={},
                           represent={}, static=set())
                 st.pop('gone', None)
-                regs2 = insp2.fields.get('_capture_regions')
+                regs2 = insp2.fields.get(private_names(self.world)['regions'])
                 if isinstance(regs2, DictV):
                     for v in regs2.vals:
                         st['static'].add(id(v))
@@ -488,10 +542,10 @@ class StreamModel:
                 except AbsRaise:
                     pass
                 res['shared'] = shared_state(interp, insp, insp2)
-            chk = insp.fields.get('_safety_checks')
+            chk = insp.fields.get(private_names(self.world)['checks'])
             res['checks'] = sorted(k.v for k in chk.keys) if isinstance(
                 chk, DictV) else None
-            regs = insp.fields.get('_capture_regions')
+            regs = insp.fields.get(private_names(self.world)['regions'])
             res['regions'] = {}
             if isinstance(regs, DictV):
                 for k, r in zip(regs.keys, regs.vals):
@@ -531,7 +585,7 @@ class StreamModel:
             self._install(interp, sched, st)
             insp = interp.call(cls, [])
             st['insp'] = insp
-            regs = insp.fields.get('_capture_regions')
+            regs = insp.fields.get(private_names(self.world)['regions'])
             if isinstance(regs, DictV):
                 for v in regs.vals:
                     st['static'].add(id(v))
